@@ -93,8 +93,10 @@ class World:
             return v
         if isinstance(v, int):
             return {"i": str(v)}
-        if isinstance(v, (bytes, bytearray)):
-            return {"b": bytes(v).hex()}
+        if isinstance(v, bytearray):
+            return {"ba": bytes(v).hex()}
+        if isinstance(v, bytes):
+            return {"b": v.hex()}
         if isinstance(v, (tuple, list)):
             return {"t": [self.desc(x) for x in v]}
         k = self.key_by_cls.get(type(v))
@@ -113,6 +115,8 @@ class World:
             return int(d["i"])
         if "b" in d:
             return bytes.fromhex(d["b"])
+        if "ba" in d:
+            return bytearray.fromhex(d["ba"])
         if "t" in d:
             return tuple(self.build(x) for x in d["t"])
         if "e" in d:
@@ -372,6 +376,12 @@ def build_functions(W):
     add("clear_cofactor_G2", "hash", [f"P:{OB}:G2"], h2c.clear_cofactor_G2, cost=4, result_tag=f"P:{OB}:G2")
     add("expand_message_xmd", "hash", ["bytes", "dst", "len"], lambda m, d, n: bh.expand_message_xmd(m, d, n, hl.sha256))
     add("hkdf_extract", "hash", ["bytes", "bytes"], bh.hkdf_extract)
+    # the documented Union[bytes, bytearray] arguments as MUTABLE objects: they must come back unchanged
+    add("hkdf_extract:bytearray", "hash", ["bytearray", "bytearray"], bh.hkdf_extract)
+    add("hkdf_expand:bytearray", "hash", ["bytearray", "bytearray", "len"], bh.hkdf_expand)
+    add("expand_message_xmd:bytearray", "hash", ["bytearray", "dst", "len"],
+        lambda m, dd, n: bh.expand_message_xmd(m, dd, n, hl.sha256))
+    add("os2ip:bytearray", "hash", ["bytearray"], bh.os2ip)
     add("hkdf_expand", "hash", ["bytes", "bytes", "len"], bh.hkdf_expand)
     add("i2osp", "hash", ["smallint", "len8"], lambda x, n: bh.i2osp(x, n))
     add("os2ip", "hash", ["bytes"], bh.os2ip)
@@ -394,6 +404,8 @@ def build_functions(W):
         add(f"{sname}.Verify", "bls", ["pk", "bytes", "sig"], S.Verify, cost=15)
         add(f"{sname}.KeyValidate", "bls", ["pk"], S.KeyValidate, cost=1)
         add(f"{sname}.KeyGen", "bls", ["bytes"], S.KeyGen)
+        add(f"{sname}.KeyGen:info", "bls", ["bytes", "bytes2"], S.KeyGen)
+        add(f"{sname}.KeyGen:bytearray", "bls", ["bytearray", "bytearray"], S.KeyGen)
         add(f"{sname}.Aggregate", "bls", ["sig", "sig"], lambda a, b, _S=S: _S.Aggregate([a, b]), cost=2)
         add(f"{sname}.AggregateVerify", "bls", ["pk", "pk", "bytes", "bytes2", "sig"],
             lambda p1, p2, m1, m2, s, _S=S: _S.AggregateVerify([p1, p2], [m1, m2], s), cost=25)
@@ -432,6 +444,7 @@ LITERALS = {
     "priv32": [b"\x00" * 31 + b"\x01", b"\x12" * 32, bytes(range(1, 33))],
     "hash32": [b"\x00" * 32, b"\xff" * 32, bytes(range(32))],
     "pk": [], "sig": [],
+    "bytearray": [bytearray(b""), bytearray(b"seed"), bytearray(32), bytearray(range(48)), bytearray(b"\x00\x30")],
     "secp_pt": [(0, 0), (0x79BE667EF9DCBBAC55A06295CE870B07029BFCDB2DCE28D959F2815B16F81798,
                          0x483ADA7726A3C4655DA4FBFC0E1108A8FD17B448A68554199C47D08FFB10D4B8)],
 }
@@ -822,6 +835,9 @@ def t_pinned(ctx):
         {"f": "basic.Sign", "args": [lit(5), lit(b"message")]},
         {"f": "pop.Sign", "args": [lit(5), lit(b"message")]},
         {"f": "aug.Sign", "args": [lit(5), lit(b"message")]},
+        {"f": "pop.KeyGen:bytearray", "args": [lit(bytearray(b"seed material")), lit(bytearray(b"info"))]},
+        {"f": "hkdf_expand:bytearray", "args": [lit(bytearray(32)), lit(bytearray(b"info")), lit(33)]},
+        {"f": "pop.KeyGen:bytearray", "args": [lit(bytearray(b"seed material")), lit(bytearray(b"info"))]},
     ]
     steps = sanitize_steps(W, steps)
     n = len(steps)
